@@ -1,12 +1,12 @@
-\* thorough: memory and threads together (requests carrying both => atomic refusal), 5 groups, depth 4, 2 roots
+\* thorough: memory only, 5 groups, depth 4 (two unlimited intermediate levels possible)
 SPECIFICATION Spec
 CONSTANTS
   MaxGroups = 5
   MaxDepth = 4
-  MaxRoots = 2
+  MaxRoots = 1
   NCPU = 3
   MemVals = {1, 2, 3}
-  ThrVals = {1, 2}
+  ThrVals = {}
   CpuCounts = {}
   CpuPcts = {}
   Cores = {}
